@@ -1,9 +1,45 @@
-"""Online monitors and post-hoc oracles, one module per property family."""
+"""Online monitors and post-hoc oracles."""
+from .base import Ctx, Tracker
+from . import core
 
 
 def attach(w, prof, props):
-    pass
+    props = set(props)
+    ctx = Ctx(w, prof)
+    w.octx = ctx
+    mons = [Tracker(ctx)]
+    if "C01" in props:
+        mons.append(core.C01(ctx, "C01", file_level=ctx.fault_free))
+    if "C02" in props:
+        mons.append(core.C02(ctx))
+    if props & {"C03", "C04"}:
+        mons.append(core.C03C04(ctx, props & {"C03", "C04"}))
+    if "C05" in props:
+        mons.append(core.C05(ctx))
+    if "C06" in props:
+        mons.append(core.C06(ctx))
+    if props & {"C07", "C18"}:
+        mons.append(core.C07C18Script(ctx, props & {"C07", "C18"}))
+    if "C09" in props:
+        mons.append(core.C09(ctx))
+    if "C16" in props:
+        mons.append(core.C16(ctx))
+    if "C18" in props:
+        mons.append(core.C18World(ctx))
+    if "C19" in props:
+        mons.append(core.C19(ctx))
+    if "C20" in props:
+        mons.append(core.C20(ctx))
+    extra = prof.get("extra_monitors")
+    if extra:
+        mons.extend(extra(ctx, props))
+    w.monitors = mons
 
 
 def finish(w, prof, props):
-    pass
+    w.observer += 1
+    try:
+        for m in w.monitors:
+            m.finish()
+    finally:
+        w.observer -= 1
